@@ -437,6 +437,56 @@ func init() {
 	})
 }
 
+const pkgSQL = "github.com/ory/keto/internal/persistence/sql"
+
+var dbOverrides = map[string]string{
+	"(*github.com/gobuffalo/pop/v6.Connection).WithContext": "dbWithContext",
+	"(*github.com/gobuffalo/pop/v6.Connection).Where":       "dbConnWhere",
+	"(*github.com/gobuffalo/pop/v6.Connection).RawQuery":    "dbConnRawQuery",
+	"(*github.com/gobuffalo/pop/v6.Query).Where":            "dbQueryWhere",
+	"(*github.com/gobuffalo/pop/v6.Query).Order":            "dbQueryOrder",
+	"(*github.com/gobuffalo/pop/v6.Query).Limit":            "dbQueryLimit",
+	"(*github.com/gobuffalo/pop/v6.Query).All":              "dbQueryAll",
+	"(*github.com/gobuffalo/pop/v6.Query).Exists":           "dbQueryExists",
+	"(*github.com/gobuffalo/pop/v6.Query).Delete":           "dbQueryDelete",
+	"(*github.com/gobuffalo/pop/v6.Query).Exec":             "dbQueryExec",
+	"github.com/ory/x/popx.Transaction":                     "dbTransaction",
+	"github.com/ory/x/popx.GetConnection":                   "dbGetConnection",
+	"github.com/ory/x/sqlcon.HandleError":                   "dbHandleError",
+}
+
+var sqlPatterns = []string{pkgSQL, "github.com/ory/keto/internal/relationtuple", "github.com/ory/keto/internal/persistence", "github.com/ory/keto/internal/x", "github.com/ory/keto/ketoctx", pkgKetoapi, pkgNs, pkgAst, "github.com/ory/keto/internal/driver/config", "database/sql"}
+
+func sqlRun(name, harness string, params map[string]int64) Run {
+	return Run{Name: name, Pkg: pkgSQL, Harness: harness, Params: params, Overrides: dbOverrides}
+}
+
+var sqlAssumptions = []string{
+	"the database is a model: K row slots with symbolic content (present flag, network id, namespace, object, relation, subject id or subject set; exactly one subject kind non-NULL); slot index = shard_id order; an INSERT lands in any free slot (fork)",
+	"the pop boundary (Connection.WithContext/Where/RawQuery, Query.Where/Order/Limit/All/Exists/Delete/Exec, popx.Transaction/GetConnection, sqlcon.HandleError) is overridden; the SQL text and the arguments produced by the real keto code are parsed and evaluated by a small SQL evaluator (AND/OR with standard precedence, parentheses, =, >, IS NULL, IN, EXISTS sub-select, aliases)",
+	"transactions: snapshot at begin, restore when the callback returns an error; a statement that does not go through the open transaction's connection is counted",
+	"the database engines' own behaviour (isolation level, ordering, collation) is an assumption encoded in the model",
+}
+
+func init() {
+	register(&Property{
+		ID:          "C04",
+		Patterns:    sqlPatterns,
+		HarnessDirs: []string{"internal/persistence/sql"},
+		NoReplay:    map[string]string{"HarnessC04": "the pre-state is an arbitrary symbolic table of the database model; replay against SQLite is not built"},
+		Assumptions: sqlAssumptions,
+		Outside:     []string{"histories are covered by one inductive step from an arbitrary table, not by enumerating sequences", "the REST/gRPC write handlers on top (mapping + transaction wrapper: C13/C16)", "more rows than K, names outside the pools"},
+		Runs: func(tier string) []Run {
+			r := sqlRun("one-step-from-arbitrary-table", "HarnessC04", map[string]int64{"K": pick(tier, 2, 3), "small": pick(tier, 1, 0)})
+			r.Reach = []string{"c04.written", "c04.listed"}
+			return []Run{r}
+		},
+		Bounds: func(tier string) map[string]interface{} {
+			return map[string]interface{}{"rows": pick(tier, 2, 3), "operation": "create 1..2 | delete 1..2 | delete-by-query (16 shapes) | transact 1+1", "query": "all 2^4 nil/non-nil shapes", "networks": 2}
+		},
+	})
+}
+
 func itoa(n int64) string {
 	s := ""
 	if n == 0 {
